@@ -29,9 +29,11 @@ package main
 //   end                   the driver evaluates `no_loss_no_dup` on the validated model state → ok
 
 import (
+	"bufio"
 	"encoding/json"
 	"fmt"
 	"os"
+	"regexp"
 	"strconv"
 	"strings"
 	"sync"
@@ -479,6 +481,9 @@ func c01Impl(c lib.Case) []string {
 	if d := os.Getenv("C01_DUMP"); d != "" { // debugging aid: every case as a replay file
 		b, _ := json.Marshal(map[string]any{"property": "C01", "header": c.Header, "ops": c.Ops})
 		os.WriteFile(fmt.Sprintf("%s/case-%03d.json", d, c01DumpN), b, 0o644)
+		if p := os.Getenv("C01_PROGRESS"); p != "" {
+			os.WriteFile(p, []byte(c.Header+"\n"), 0o644)
+		}
 		c01DumpN++
 	}
 	f := strings.Fields(c.Header)
@@ -513,9 +518,16 @@ func c01Impl(c lib.Case) []string {
 		}
 	}()
 	out := make([]string, 0, len(c.Ops))
+	progress := os.Getenv("C01_PROGRESS") // debugging aid: the events of the running case, op by op
 	for _, line := range c.Ops {
 		a := strings.Fields(line)
 		var o string
+		if progress != "" && len(out) > 0 {
+			if f, err := os.OpenFile(progress, os.O_APPEND|os.O_CREATE|os.O_WRONLY, 0o644); err == nil {
+				fmt.Fprintf(f, "%s => %s\n", c.Ops[len(out)-1], out[len(out)-1])
+				f.Close()
+			}
+		}
 		switch {
 		case len(a) == 1 && a[0] == "boot":
 			o = w.boot()
@@ -618,6 +630,10 @@ func c01Impl(c lib.Case) []string {
 				c01Count("worker_kills", 1)
 			case strings.HasPrefix(t, "x:"):
 				c01Count("workers_that_stopped_themselves", 1)
+			case strings.HasPrefix(t, "xr:"):
+				c01Count("self_stops_in_a_healthy_deployment:operator_not_ready_race", 1)
+			case strings.HasPrefix(t, "xu:"):
+				c01Count("self_stops_unexplained", 1)
 			case strings.HasPrefix(t, "survivors:"):
 				c01Count("grace_expired:survivors", 1)
 			case t == "kj":
@@ -640,6 +656,7 @@ type c01Gen struct {
 	n       int
 	nsplits int
 	nkeys   int
+	fresh   bool // only recoveries onto fresh processes (see rot in c01Gen1)
 	racy    bool // a recovery whose outcome depends on a race with the survivors' own shutdown was scheduled
 }
 
@@ -665,7 +682,7 @@ func (g *c01Gen) feeds(lo, hi, max int) {
 // survivors stop themselves when their source runner meets the dead operator (fail-fast), so that the job replaces
 // every process; returns false when the survivors may still be alive at the restart
 func (g *c01Gen) killSome() {
-	if g.n >= 2 && g.r.Chance(2, 3) {
+	if !g.fresh && g.n >= 2 && g.r.Chance(2, 3) {
 		for k := g.r.Range(1, g.n-1); k > 0; k-- {
 			g.add("killr %d", g.r.Intn(8))
 		}
@@ -678,6 +695,9 @@ func (g *c01Gen) killSome() {
 // fail: a failure of workers while the job stays up, and the recovery from it
 func (g *c01Gen) fail() {
 	switch {
+	case g.fresh:
+		g.add("killall")
+		g.add("restart 0")
 	case g.n >= 2 && g.r.Chance(1, 6):
 		// a strict subset dies and the job redeploys at once: survivors that have not stopped themselves yet are
 		// redeployed as live processes (finding D39); a survivor dying during the deployment can make it fail
@@ -756,15 +776,23 @@ func c01Gen1(r *lib.Rng, tier string, idx int) lib.Case {
 	readBatch := r.Range(1, 3)
 	// rot > 0 seals the operator's memtable every rot-th handler batch, so that the keyed state also lives in
 	// sstables (flush/compaction under the cluster, restores through checkpoints that reference tables). Two fixed
-	// cases run with it on every check. Generated cases keep rot = 0 unless C01_ROT is set: about one cluster run in
-	// several hundred then dies with "panic: file not found" in sst.Table.loadFooter inside an operator's event loop
-	// (open finding D25 of C09: a table file is deleted although a restored operator still references it), and a
-	// panic in that goroutine takes the whole in-process cluster, i.e. the check, down.
+	// cases run with it on every check. Generated cases keep rot = 0 unless C01_ROT is set (all: every case, and only
+	// recoveries onto fresh processes; live: every case with all recovery shapes). With small memtables a cluster run
+	// sooner or later dies with "panic: file not found" in sst.Table.loadFooter inside an operator's event loop, which
+	// takes the whole in-process cluster, i.e. the check, down:
+	//  * within a few dozen cases when an operator process is redeployed live (its released database instance is
+	//    garbage collected and its cleanup deletes table files a later checkpoint references: finding D25 of C09);
+	//  * about once in 100-300 cases even when every recovery is onto fresh processes and every finished cluster is
+	//    kept reachable (corpus/C01/sstables-file-not-found-fresh-only.trace: the second restore from a checkpoint
+	//    that was taken two deployments earlier and published late). Re-enable when C09 has settled this.
 	rot := 0
-	if pick := lib.Pick(r, []int{0, 0, 1, 2, 3, 5}); os.Getenv("C01_ROT") != "" {
-		rot = pick
+	if v := os.Getenv("C01_ROT"); v == "all" || v == "live" {
+		rot = lib.Pick(r, []int{1, 2, 2, 3})
+	} else {
+		_ = r.Intn(4)
 	}
-	g := &c01Gen{r: r, n: n, nsplits: nsplits, nkeys: nkeys}
+	rotFreshOnly := os.Getenv("C01_ROT") != "live"
+	g := &c01Gen{r: r, n: n, nsplits: nsplits, nkeys: nkeys, fresh: rot > 0 && rotFreshOnly}
 	g.add("boot")
 	rounds := r.Range(2, 5)
 	if tier == "thorough" {
@@ -802,7 +830,7 @@ func c01Gen1(r *lib.Rng, tier string, idx int) lib.Case {
 					g.add("oack %d", r.Intn(4))
 				}
 			}
-			if r.Chance(1, 5) {
+			if !g.fresh && r.Chance(1, 5) {
 				// the live workers re-register with the new job and are redeployed as live processes (finding D39)
 				g.add("killjob %d 0", g.n)
 				g.racy = true
@@ -943,7 +971,68 @@ func c01VerifRoot() string {
 	return "/verif"
 }
 
+// The framework re-runs a diverging case and drops the divergence when it does not come back (it prints a note on
+// stderr). Around racy recoveries this filter is really used, so the notes are counted by kind for the evidence
+// (extra.unreproducible_by_kind): stderr is passed through unchanged and scanned for those notes.
+var (
+	c01UnreproMu sync.Mutex
+	c01Unrepro   = map[string]int{}
+	c01KindRe    = regexp.MustCompile(`DISABLED\(([a-zA-Z!]+)[:)]|(STALLED\([a-z]+|CHECKPOINT-STALLED|DEPLOYMENT-STALLED|not-quiescent|exactly-once-violated)`)
+	c01ReasonRe  = regexp.MustCompile(`DISABLED\([^)]*:([a-z-]+?)(-[0-9.]+)?\)`)
+)
+
+func c01DivergenceKind(note string) string {
+	i := strings.Index(note, "model=\"")
+	if i < 0 {
+		return "other"
+	}
+	model := note[i:]
+	m := c01KindRe.FindStringSubmatch(model)
+	if m == nil {
+		return "observation-differs" // same steps, different observation (handler state, cursors, restored checkpoint)
+	}
+	if m[1] != "" {
+		kind := map[string]string{"d": "handler-invocation", "c": "operator-ack", "b": "runner-ack", "t": "checkpoint-start",
+			"p": "publication", "r": "read", "R": "deployment", "L": "deployment"}[m[1]]
+		if kind == "" {
+			kind = "step-" + m[1]
+		}
+		if r := c01ReasonRe.FindStringSubmatch(model); r != nil {
+			kind += ":" + r[1]
+		}
+		return kind
+	}
+	return strings.TrimSuffix(strings.Replace(m[2], "(", ":", 1), ")")
+}
+
+func c01TeeStderr() {
+	r, w, err := os.Pipe()
+	if err != nil {
+		return
+	}
+	real := os.Stderr
+	os.Stderr = w
+	go func() {
+		br := bufio.NewReaderSize(r, 1<<20)
+		for {
+			line, err := br.ReadString('\n')
+			if len(line) > 0 {
+				real.WriteString(line)
+				if strings.HasPrefix(line, "note: a ") && strings.Contains(line, "did not reproduce") {
+					c01UnreproMu.Lock()
+					c01Unrepro[c01DivergenceKind(line)]++
+					c01UnreproMu.Unlock()
+				}
+			}
+			if err != nil {
+				return
+			}
+		}
+	}()
+}
+
 func propC01() *lib.Prop {
+	c01TeeStderr()
 	lib.CaseTimeout = 120 * time.Second
 	return &lib.Prop{
 		ID:       "C01",
@@ -966,7 +1055,14 @@ func propC01() *lib.Prop {
 			for k, v := range c01Stats {
 				m[k] = v
 			}
-			return map[string]any{"observations": m}
+			time.Sleep(100 * time.Millisecond) // let the stderr pass-through catch up
+			u := map[string]any{}
+			c01UnreproMu.Lock()
+			for k, v := range c01Unrepro {
+				u[k] = v
+			}
+			c01UnreproMu.Unlock()
+			return map[string]any{"observations": m, "unreproducible_by_kind": u}
 		},
 		Nontrivial: func(c lib.Case, out []string) bool {
 			restored := false
